@@ -27,6 +27,7 @@ from typing import ClassVar
 
 from numpy import abs as np_abs
 from numpy import concatenate
+from numpy import isfinite
 from numpy import ndarray
 from numpy import zeros
 
@@ -162,7 +163,11 @@ class IDF(BaseMDOFormulation):
             u_b = self.optimization_problem.design_space.get_upper_bound(output)
             l_b = self.optimization_problem.design_space.get_lower_bound(output)
             norm_fact.append(np_abs(u_b - l_b))
-        return concatenate(norm_fact)
+        norm_fact = concatenate(norm_fact)
+        # Do not scale the components whose range is either infinite or zero,
+        # otherwise the consistency constraints would be constant or undefined.
+        norm_fact[~isfinite(norm_fact) | (norm_fact == 0.0)] = 1.0
+        return norm_fact
 
     def _build_constraints(self) -> None:
         """Build the constraints.
